@@ -18,6 +18,10 @@ check("C09", "stateless model checking of the real context under a controlled sc
       "Every multiset of 2-4 goroutine programs over {RunCode, ModuleInit, ResolveAndCompile, Close, wait-for-Done} is run on the real stdlib.context under a cooperative scheduler whose scheduling points are generated from the current source (every lifecycle statement, every sync operation, inside the running Python code); ALL schedules within the preemption bound (quick: 2; thorough: up to 4) are executed and a monitor checks: no panic, no deadlock, Close returns only after admitted executions finished and callbacks ran once, Done not early, no admission after callbacks, requests after Close fail with an ordinary error.",
       "sequentially consistent interleavings only; memory-model effects are seen only by the auxiliary free-running -race pass of the same bodies (a sampler, reported separately as non-deciding); the vsync shim models sync.Mutex/WaitGroup/Once",
       "DESIGN.md section 4 C09", engine="explorer")
-ENGINES.append({"name": "explorer", "path": "explore + vsync + verifrt + cmd/instr", "serves_properties": ["C09"],
+check("C18", "stateless exploration of the compiler's internal nondeterminism (every controlled map-iteration order; all interleavings of two concurrent compilations at function-entry granularity) with a differential oracle",
+      "For a corpus of generated scope-heavy programs plus every .py file in the repository: every iteration order of every range-over-map in symtable/compile/vm within the deviation bound, all ordered pairs compiled back to back, all interleavings of two concurrent py.Compile calls within the preemption bound, and a before/after snapshot of every package-level variable of parser/symtable/compile/ast; every code object (recursive structural dump) must equal the first compilation.",
+      "orders for maps with more than 4 keys are reversal/rotations/adjacent transpositions, not all n!; interleavings are sequentially consistent at function-entry granularity; the -race pass (16 goroutines) is auxiliary and non-deciding",
+      "DESIGN.md section 4 C18", engine="explorer")
+ENGINES.append({"name": "explorer", "path": "explore + vsync + verifrt + cmd/instr", "serves_properties": ["C09", "C18"],
   "kind_free_text": "choice-sequence DFS explorer with a cooperative goroutine scheduler (preemption/deviation bounded, optional visited-state pruning); sync shim; build-overlay instrumenter deriving yield points and controlled map-iteration order from the current sources"})
 ENGINES[0]["serves_properties"] = sorted(k for k in CHECKS.keys() if CHECKS[k]["engine"] == "enumerator")
